@@ -1413,47 +1413,118 @@ func c13JSON(p *core.Program, r *core.Report, typesPkg *ssa.Package) {
 	}
 	want := map[string]string{"String": "XText", "Number": "XNumber", "Boolean": "XBoolean", "Array": "XArray", "Object": "XObject", "Null": "nil"}
 	got := map[string]string{}
-	var numberArm *ssa.BasicBlock
-	for _, b := range fn.Blocks {
+	// the value type parameter of a function, and the parameter of a helper of the package it is handed on to
+	vtParamOf := func(f *ssa.Function) *ssa.Parameter {
+		var vt *ssa.Parameter
+		for _, prm := range f.Params {
+			if strings.HasSuffix(core.ShortType(prm.Type()), "ValueType") {
+				vt = prm
+			}
+		}
+		return vt
+	}
+	helperOf := func(from *ssa.Function, call *ssa.Call, vt *ssa.Parameter) (*ssa.Function, *ssa.Parameter) {
+		cf := call.Call.StaticCallee()
+		if cf == nil || len(cf.Blocks) == 0 || core.FuncPkgPath(cf) != core.FuncPkgPath(from) {
+			return nil, nil
+		}
+		var cvt *ssa.Parameter
+		if vt != nil {
+			for i, a := range call.Call.Args {
+				if a == ssa.Value(vt) && i < len(cf.Params) {
+					cvt = cf.Params[i]
+				}
+			}
+		}
+		return cf, cvt
+	}
+	// a test of the value type against one constant: the constant and the successor taken when they are equal
+	vtTest := func(b *ssa.BasicBlock, vt *ssa.Parameter) (int64, *ssa.BasicBlock, bool) {
 		iff, ok := b.Instrs[len(b.Instrs)-1].(*ssa.If)
-		if !ok {
-			continue
+		if !ok || vt == nil {
+			return 0, nil, false
 		}
 		bo, ok := iff.Cond.(*ssa.BinOp)
-		if !ok || bo.Op != token.EQL {
-			continue
+		if !ok || (bo.Op != token.EQL && bo.Op != token.NEQ) {
+			return 0, nil, false
 		}
-		k, ok := core.ConstInt(bo.Y)
+		var other ssa.Value
+		if bo.X == ssa.Value(vt) {
+			other = bo.Y
+		} else if bo.Y == ssa.Value(vt) {
+			other = bo.X
+		} else {
+			return 0, nil, false
+		}
+		k, ok := core.ConstInt(other)
 		if !ok {
-			continue
+			return 0, nil, false
 		}
-		nm := names[k]
-		body := b.Succs[0]
-		if nm == "Number" {
-			numberArm = body
+		if bo.Op == token.EQL {
+			return k, b.Succs[0], true
 		}
-		_ = body
+		return k, b.Succs[1], true
 	}
+	// the code that runs for a JSON number: the blocks under the test for Number, and in the helpers of the package
+	// the value type is handed on to from there, the blocks under their own test for Number
+	type vtRegion struct {
+		fn     *ssa.Function
+		blocks []*ssa.BasicBlock
+	}
+	var numberRegions []vtRegion
+	var regionsOf func(f *ssa.Function, vt *ssa.Parameter, top bool, depth int, seen map[*ssa.Function]bool)
+	regionsOf = func(f *ssa.Function, vt *ssa.Parameter, top bool, depth int, seen map[*ssa.Function]bool) {
+		var arm []*ssa.BasicBlock
+		tested := false
+		for _, b := range f.Blocks {
+			k, body, ok := vtTest(b, vt)
+			if !ok || names[k] != "Number" {
+				continue
+			}
+			tested = true
+			for _, d := range f.Blocks {
+				if body.Dominates(d) {
+					arm = append(arm, d)
+				}
+			}
+		}
+		if !tested {
+			if top {
+				return
+			}
+			arm = f.Blocks
+		}
+		numberRegions = append(numberRegions, vtRegion{f, arm})
+		for _, b := range arm {
+			for _, in := range b.Instrs {
+				call, ok := in.(*ssa.Call)
+				if !ok {
+					continue
+				}
+				if cf, cvt := helperOf(f, call, vt); cf != nil && cvt != nil && depth < 3 && !seen[cf] {
+					seen[cf] = true
+					regionsOf(cf, cvt, false, depth+1, seen)
+				}
+			}
+		}
+	}
+	regionsOf(fn, vtParamOf(fn), true, 0, map[*ssa.Function]bool{fn: true})
 	// the X type returned for each value type: every way out of the function with the tests on the value type decided
-	// for that type (early returns in the arms, or one exit with a result variable)
-	var vtParam *ssa.Parameter
-	for _, prm := range fn.Params {
-		if strings.HasSuffix(core.ShortType(prm.Type()), "ValueType") {
-			vtParam = prm
-		}
-	}
-	for k, nm := range names {
-		k := k
-		core.ExplorePaths(fn, core.PathRules{
+	// for that type (early returns in the arms, or one exit with a result variable); a result taken from a helper of the
+	// package is followed into the helper, the value type bound to the helper's parameter
+	var returnedFor func(f *ssa.Function, vt *ssa.Parameter, k int64, okWanted core.AB, depth int) []string
+	returnedFor = func(f *ssa.Function, vt *ssa.Parameter, k int64, okWanted core.AB, depth int) []string {
+		var out []string
+		core.ExplorePaths(f, core.PathRules{
 			OnBranch: func(s *core.PathState, cond ssa.Value) core.AB {
 				bo, ok := cond.(*ssa.BinOp)
-				if !ok || (bo.Op != token.EQL && bo.Op != token.NEQ) || vtParam == nil {
+				if !ok || (bo.Op != token.EQL && bo.Op != token.NEQ) || vt == nil {
 					return core.Unk
 				}
 				var other ssa.Value
-				if bo.X == ssa.Value(vtParam) {
+				if bo.X == ssa.Value(vt) {
 					other = bo.Y
-				} else if bo.Y == ssa.Value(vtParam) {
+				} else if bo.Y == ssa.Value(vt) {
 					other = bo.X
 				} else {
 					return core.Unk
@@ -1468,17 +1539,48 @@ func c13JSON(p *core.Program, r *core.Report, typesPkg *ssa.Package) {
 				if ret == nil || len(ret.Results) == 0 {
 					return
 				}
-				v := ret.Results[0]
-				for i := 0; i < 4; i++ {
-					phi, ok := v.(*ssa.Phi)
-					if !ok {
-						break
+				resolve := func(v ssa.Value) ssa.Value {
+					for i := 0; i < 4; i++ {
+						phi, ok := v.(*ssa.Phi)
+						if !ok {
+							break
+						}
+						in := pathIncoming(s, phi)
+						if in == nil {
+							break
+						}
+						v = in
 					}
-					in := pathIncoming(s, phi)
-					if in == nil {
-						break
+					return v
+				}
+				// a (value, ok) helper: the exits whose ok is the constant the caller's path excludes do not count
+				if okWanted != core.Unk && len(ret.Results) == 2 {
+					if c, ok := resolve(ret.Results[1]).(*ssa.Const); ok && c.Value != nil && c.Value.Kind() == constant.Bool {
+						if boolAB(constant.BoolVal(c.Value)) != okWanted {
+							return
+						}
 					}
-					v = in
+				}
+				v := resolve(ret.Results[0])
+				var call *ssa.Call
+				if ex, ok := v.(*ssa.Extract); ok && ex.Index == 0 {
+					call, _ = ex.Tuple.(*ssa.Call)
+				} else if c, ok := v.(*ssa.Call); ok {
+					call = c
+				}
+				if call != nil && depth < 3 {
+					if cf, cvt := helperOf(f, call, vt); cf != nil && cvt != nil {
+						okv := core.Unk
+						if cf.Signature.Results().Len() == 2 && call.Referrers() != nil {
+							for _, rf := range *call.Referrers() {
+								if ex, ok := rf.(*ssa.Extract); ok && ex.Index == 1 {
+									okv = s.Val(ex)
+								}
+							}
+						}
+						out = append(out, returnedFor(cf, cvt, k, okv, depth+1)...)
+						return
+					}
 				}
 				t := "?"
 				if core.IsNilConst(v) {
@@ -1490,23 +1592,32 @@ func c13JSON(p *core.Program, r *core.Report, typesPkg *ssa.Package) {
 				if t == "XError" {
 					return
 				}
-				if got[nm] != "" && got[nm] != t && !strings.Contains("|"+got[nm]+"|", "|"+t+"|") {
-					t = got[nm] + "|" + t
-				} else if got[nm] != "" {
-					t = got[nm]
-				}
-				got[nm] = t
+				out = append(out, t)
 			},
 		})
+		return out
+	}
+	for k, nm := range names {
+		for _, t := range returnedFor(fn, vtParamOf(fn), k, core.Unk, 0) {
+			if got[nm] != "" && got[nm] != t && !strings.Contains("|"+got[nm]+"|", "|"+t+"|") {
+				t = got[nm] + "|" + t
+			} else if got[nm] != "" {
+				t = got[nm]
+			}
+			got[nm] = t
+		}
 	}
 	for _, nm := range core.SortedKeys(want) {
 		r.Check(got[nm] == want[nm], "R6", "jsonTypeToXValue/"+nm, p.Pos(fn.Pos()), "JSON "+nm+" -> "+want[nm], "a JSON "+nm+" becomes "+got[nm]+" (expected "+want[nm]+"): written back with json() it is not the value that was read")
 	}
 	// no gate narrower than the JSON number grammar in the Number arm (following calls inside the package)
-	if numberArm != nil {
+	if len(numberRegions) > 0 {
 		ref, _ := rxCompile(`^-?(0|[1-9][0-9]*)(\.[0-9]+)?([eE][-+]?[0-9]+)?$`)
 		gates := 0
 		seen := map[*ssa.Function]bool{}
+		for _, rg := range numberRegions {
+			seen[rg.fn] = true
+		}
 		var scan func(f *ssa.Function, blocks []*ssa.BasicBlock, depth int)
 		scan = func(f *ssa.Function, blocks []*ssa.BasicBlock, depth int) {
 			for _, b := range blocks {
@@ -1544,12 +1655,10 @@ func c13JSON(p *core.Program, r *core.Report, typesPkg *ssa.Package) {
 			}
 		}
 		var arm []*ssa.BasicBlock
-		for _, b := range fn.Blocks {
-			if numberArm.Dominates(b) {
-				arm = append(arm, b)
-			}
+		for _, rg := range numberRegions {
+			arm = append(arm, rg.blocks...)
+			scan(rg.fn, rg.blocks, 0)
 		}
-		scan(fn, arm, 0)
 		if gates == 0 {
 			r.OK("R6", "jsonTypeToXValue/Number/no-narrow-gate", p.Pos(fn.Pos()), "no regexp gate between the JSON number and its decimal")
 		}
